@@ -694,6 +694,18 @@ class ExchangeRate:
         self._unit_multiple = mult
         self._term_amount = Decimal(term_amount, 6)
 
+    @classmethod
+    def _identity(cls, currency: Currency) -> ExchangeRate:
+        """Return the rate 1 between `currency` and itself.
+
+        Such a rate can not be created by calling the class, but it is the
+        correct answer when a converter is asked for it."""
+        rate = object.__new__(cls)
+        rate._unit_currency = rate._term_currency = currency
+        rate._unit_multiple = ONE
+        rate._term_amount = Decimal(1, 6)
+        return rate
+
     @property
     def unit_currency(self) -> Currency:
         """Currency to be converted from, aka base currency."""
@@ -1138,7 +1150,7 @@ class MoneyConverter:
                 effective for `effective_date`, `None` if there is no such rate
         """
         if unit_currency is term_currency:
-            return ExchangeRate(unit_currency, ONE, term_currency, ONE)
+            return ExchangeRate._identity(unit_currency)
         base_currency = self.base_currency
         if base_currency == unit_currency:
             try:
